@@ -45,6 +45,7 @@ def run(repo: Repo, chk: Check) -> None:
     elide(repo, chk)
     pull(repo, chk)
     hoist_if(repo, chk)
+    all_setups(repo, chk)
     op_traits(repo, chk)
     pass_wiring(repo, chk)
     # C01.state-soundness: the inference consumed by the patterns (same rule instances as C07)
@@ -253,6 +254,7 @@ def pull(repo: Repo, chk: Check) -> None:
         [
             ("parent-is-for", g("isinstance($op.parent_op(), scf.ForOp)", "isinstance($op.parent_op(), ForOp)", op=op)),
             ("has-in-state", g("$op.in_state is not None", "$op.in_state", op=op)),
+            ("no-unknown-effects-in-loop", g("not has_accfg_effects($op.parent_op())", "not has_accfg_effects($op.parent_op().body)", op=op)),
             ("in-state-is-loop-arg", g("$op.in_state.owner == $op.parent_op().body.block", "$op.in_state.owner is $op.parent_op().body.block",
                                        "$op.in_state in $op.parent_op().body.block.args", op=op)),
         ],
@@ -388,6 +390,8 @@ def hoist_if(repo: Repo, chk: Check) -> None:
         chk, "C01.hoist-if", f, sites,
         [
             ("in-state-from-if", g("isinstance($op.in_state.owner, scf.IfOp)", "isinstance($op.in_state.owner, IfOp)", op=op)),
+            ("setup-in-block-of-the-if", g("$op.parent_block() is $op.in_state.owner.parent_block()", "$op.parent_block() == $op.in_state.owner.parent_block()",
+                                           "$op.in_state.owner.parent_block() is $op.parent_block()", "$op.parent is $op.in_state.owner.parent", op=op)),
             ("launch-users-same-block", same_block2),
             ("no-launch-in-between", not_before2),
         ],
@@ -428,6 +432,38 @@ def hoist_if(repo: Repo, chk: Check) -> None:
         any(norm.match(T("$op.out_state.replace_all_uses_with($op.in_state)"), s.expand(s.node), {"op": op}) is not None for s in erase),
         "C01.hoist-if", f"{f.key}:redirect", erase[0].where() if erase else f.where,
         "uses of the sunk setup's out_state are redirected to the scf.if result")
+
+
+def all_setups(repo: Repo, chk: Check) -> None:
+    """all_setup_ops_in_region feeds both the loop-head inference and the hoisting scan: it must see nested setups"""
+    f, fl = flow_of(repo, chk, "snaxc/inference/trace_acc_state.py", "all_setup_ops_in_region")
+    region, accel = f.param(0), f.param(1)
+    chk.rule(
+        "C01.all-setups",
+        "all_setup_ops_in_region walks every nested op of the region and yields all parameters of every setup of the "
+        "given accelerator",
+        floor=2,
+    )
+    ys = [s for s in fl.sites if isinstance(s.node, (ast.Yield, ast.YieldFrom)) and s.reachable]
+    rets = [s for s in fl.stmts(ast.Return) if s.reachable and s.node.value is not None]
+    outs = ys + rets
+    if not outs:
+        raise AnalysisError(f"{f.where}: no yield/return")
+    for s in outs:
+        loops = [l for l in s.loops if isinstance(l, (ast.For, ast.comprehension))]
+        walks = any(norm.any_match(["$r.walk()", "$r.walk(reverse=$_)"], (l.iter), {"r": region}) is not None for l in loops) or depends_on(
+            s.node.value, "$r.walk()", binds={"r": region})
+        chk.result(walks, "C01.all-setups", f"{f.key}:walk", s.where(),
+                   "setups nested in scf.if / scf.for inside the region are included (region.walk())",
+                   "only part of the region is scanned for setups (not region.walk()): a setup nested in control flow inside a loop body "
+                   "is invisible to the loop-head inference and to the hoisting scan")
+        okf = bool(has_fact(s, ["isinstance($o, accfg.SetupOp)", "isinstance($o, SetupOp)"])) and bool(
+            has_fact(s, ["$o.accelerator.data == $a", "$a == $o.accelerator.data"], {"a": accel}))
+        chk.result(okf, "C01.all-setups", f"{f.key}:filter", s.where(),
+                   "exactly the setups of the requested accelerator are reported", "the setup filter (SetupOp of this accelerator) changed", s.fact_texts)
+        v = s.expand(s.node.value) if s.node.value is not None else None
+        chk.result(v is not None and depends_on(v, "$o.iter_params()") , "C01.all-setups", f"{f.key}:all-params", s.where(),
+                   "all parameters of the setup are reported")
 
 
 # --------------------------------------------------------------------------- accfg op traits
